@@ -36,6 +36,15 @@ func init() {
 
 type world struct{ tier string }
 
+// PkgDir holds the harness-owned MPCL packages (vsim, vsim2).
+var PkgDir = func() string {
+	d := os.Getenv("VERIF_DIR")
+	if d == "" {
+		d = "/verif"
+	}
+	return filepath.Join(d, "mpclpkgs")
+}()
+
 // multi-import programs: several library packages with package-level
 // variables and constants.
 var crafted = []stream.Program{
@@ -106,6 +115,31 @@ func main(a, b [2]byte) (bool, []byte, uint64, uint16) {
 
 func init() {
 	crafted = append(crafted,
+		stream.Program{Name: "crafted/vsim name clash (package variable and main argument of the same name die at one instruction)", Src: `package main
+
+import (
+	"vsim"
+)
+
+func main(Acc, B uint64) (uint64, uint64) {
+	return (Acc + vsim.Acc) ^ B, B + uint64(vsim.B)
+}
+`},
+		stream.Program{Name: "crafted/vsim+vsim2+hex name clashes", Src: `package main
+
+import (
+	"encoding/hex"
+	"vsim"
+	"vsim2"
+)
+
+func main(Acc uint64, Off uint8) (uint64, uint8, []byte) {
+	x := Acc + vsim2.Acc
+	y := vsim.Mix(Acc) + vsim.Acc
+	Tab := hex.EncodeToString(vsim.Tab)
+	return x ^ y, vsim2.Add(Off) + Off + vsim2.Off, []byte(Tab)
+}
+`},
 		stream.Program{Name: "crafted/aes+hkdf+hex (three packages with package-level variables)", Src: `package main
 
 import (
@@ -235,6 +269,7 @@ func (nopCloser) Close() error { return nil }
 
 func newParams(v Variant) *utils.Params {
 	p := utils.NewParams()
+	p.PkgPath = []string{PkgDir}
 	p.Config = &env.Config{Rand: simrand.Stream("compile")}
 	p.Warn.DisableAll()
 	p.OptPruneGates = v.Prune
